@@ -444,6 +444,22 @@ def run_stream(fe, tbq, lines, indexed=True):
             events.append((i, 'T', '|'.join(hx(r) for r in item)))
     if not indexed:
         events = [(0, k, t) for _, k, t in events]
+    if fe == 'queue' and not tbq and crash is None:
+        # the same lines through a second queue that is emptied with the blocking interface of queue.Queue
+        alt = []
+        try:
+            nq2 = Q.NMEAQueue()
+            for l in lines:
+                nq2.put_line(l)
+                while not nq2.empty():
+                    alt.append(show_sentence(nq2.get(block=True, timeout=5)))
+            if nq2.qsize() != 0 or nq2.get_or_none() is not None:
+                alt.append('NOT-EMPTY')
+        except Exception as e:  # noqa
+            alt = err(e)
+        if alt != [t for _, k, t in events if k == 'D']:
+            return 'READERS-DIFFER get_or_none=%d deliveries get()=%s' % (
+                len([1 for _, k, _ in events if k == 'D']), alt if isinstance(alt, str) else '%d deliveries' % len(alt))
     if fe in ('iter', 'bytestream') and not tbq and crash is None:
         # the same reader consumed with next() instead of a for loop ("Returns the next decoded NMEA message")
         alt = _by_next((ST.IterMessages if fe == 'iter' else ST.ByteStream)(list(lines)), len(lines))
@@ -894,6 +910,10 @@ def run_chain(fspec, lines):
         elems.append(_Wrap(i, l))
     out = [IDX[id(m)] for m in chain.filter(elems)]
     res = '[' + ','.join(str(i) for i in out) + ']'
+    # one chain object serves any number of streams
+    again = _try(lambda: '[' + ','.join(str(IDX[id(m)]) for m in chain.filter(list(elems))) + ']')
+    if again != res:
+        return 'READERS-DIFFER chain-first-stream=%s same-chain-second-stream=%s' % (res, again)
     # the same chain (fresh filter objects) over the sentence objects a reader delivers
     try:
         sents = []
@@ -939,8 +959,21 @@ def step2(line):
     cmd = p[0]
     if cmd == 'parse':
         _siblings([unhx(p[1])])
-        return _family({'NMEASentenceFactory.produce': _try(lambda: show_sentence(M.NMEASentenceFactory.produce(unhx(p[1])))),
-                        'decode_nmea_line': _try(lambda: show_sentence(DEC.decode_nmea_line(unhx(p[1]))))})
+        raw = unhx(p[1])
+        fam = {'NMEASentenceFactory.produce': _try(lambda: show_sentence(M.NMEASentenceFactory.produce(raw))),
+               'decode_nmea_line': _try(lambda: show_sentence(DEC.decode_nmea_line(raw)))}
+        if ' ais=1 ' in fam['NMEASentenceFactory.produce'] and ' tb=N ' in fam['NMEASentenceFactory.produce'] \
+                and fam['NMEASentenceFactory.produce'].startswith('raw=%s ' % hx(raw)):
+            # (the factory strips blanks and tag blocks first; a line it takes as it is ...)
+            # an AIS sentence without tag block can also be built directly
+            fam['AISSentence.from_bytes'] = _try(lambda: show_sentence(M.AISSentence.from_bytes(raw)))
+            try:
+                text = raw.decode('utf-8')
+                if text.encode('utf-8') == raw:
+                    fam['AISSentence.from_string'] = _try(lambda: show_sentence(M.AISSentence.from_string(text)))
+            except UnicodeDecodeError:
+                pass
+        return _family(fam)
     if cmd == 'decode':
         args = [unhx(x) for x in p[2:]]
         strict = (p[1] == '1')
@@ -953,7 +986,19 @@ def step2(line):
                 fam['decode(str)'] = _try(lambda: canon_msg(pyais.decode(*sargs, error_if_checksum_invalid=strict)))
         except UnicodeDecodeError:
             pass
-        return _family(fam)
+        res = _family(fam)
+        if not res.startswith(('ERR', 'READERS-DIFFER')):
+            # the merged view of sentence and decoded message shows the decoded fields as decode() does
+            try:
+                sobj = DEC._assemble_messages(*args, error_if_checksum_invalid=strict)
+                merged = sobj.decode_and_merge()
+                plain = sobj.decode().asdict()
+                bad = [k for k, v in plain.items() if k not in merged or merged[k] != v or type(merged[k]) is not type(v)]
+                if bad or 'bit_array' in merged:
+                    return 'READERS-DIFFER decode_and_merge shows other values than decode(): %s' % (bad[:5] or 'bit_array')
+            except Exception:  # noqa  (the merged view is not part of decode()'s contract: compared only where it exists)
+                pass
+        return res
     if cmd == 'assemble':
         _siblings([unhx(x) for x in p[2:]])
         return show_sentence(DEC._assemble_messages(*[unhx(x) for x in p[2:]], error_if_checksum_invalid=(p[1] == '1')))
@@ -1003,9 +1048,28 @@ def step2(line):
         return ','.join(hx(s.encode('latin-1')) for s in r)
     if cmd == 'encode_msg':
         m = getattr(M, p[1]).create(**parse_kw(p[4]))
-        r = _twice(lambda: ENC.encode_msg(m, talker_id=unhx(p[2]).decode('latin-1'),
-                                          radio_channel=unhx(p[3]).decode('latin-1')))
-        return ','.join(hx(s.encode('latin-1')) for s in r)
+        talker, chan = unhx(p[2]).decode('latin-1'), unhx(p[3]).decode('latin-1')
+        r = _twice(lambda: ENC.encode_msg(m, talker_id=talker, radio_channel=chan))
+        res = ','.join(hx(s.encode('latin-1')) for s in r)
+        if talker in ('AIVDM', 'AIVDO') and chan in ('A', 'B'):
+            # the same message by hand: Payload.encode() / to_bitarray() + encode_ascii_6, then ais_to_nmea_0183
+            fam = {'encode_msg': res}
+            fam['msg.encode() + ais_to_nmea_0183'] = _try(lambda: ','.join(
+                hx(x.encode('latin-1')) for x in ENC.ais_to_nmea_0183(m.encode()[0], talker, chan, m.encode()[1])))
+            fam['to_bitarray() + encode_ascii_6 + ais_to_nmea_0183'] = _try(lambda: ','.join(
+                hx(x.encode('latin-1')) for x in _manual_encode(m, talker, chan)))
+            # a message object is encoded, changed, encoded, changed back and encoded again: the last result is the first
+            try:
+                old = m.mmsi
+                m.mmsi = 123456789 if int(old or 0) != 123456789 else 987654321
+                ENC.encode_msg(m, talker_id=talker, radio_channel=chan)
+                m.mmsi = old
+                fam['encode_msg after the object was changed and changed back'] = ','.join(
+                    hx(x.encode('latin-1')) for x in ENC.encode_msg(m, talker_id=talker, radio_channel=chan))
+            except AttributeError:
+                pass
+            return _family(fam)
+        return res
     if cmd == 'nmea':
         r = _twice(lambda: ENC.ais_to_nmea_0183(unhx(p[1]).decode('latin-1'), unhx(p[2]).decode('latin-1'),
                                                 unhx(p[3]).decode('latin-1'), int(p[4])))
@@ -1041,6 +1105,11 @@ def _siblings(lines):
                     pass
         except Exception:  # noqa
             pass
+
+
+def _manual_encode(m, talker, chan):
+    armored, fill = U.encode_ascii_6(m.to_bitarray())
+    return ENC.ais_to_nmea_0183(armored, talker, chan, fill)
 
 
 def _twice(fn):
